@@ -39,6 +39,7 @@ def all_calls():
     out.append(("burn", ["o1", "o2", "o3"]))
     out.append(("burn", ["o2", "o1", "o1"]))
     out += [("reset", []), ("finish", [])]
+    out += [("shift", ["o1", "o2", "o2"]), ("shift", ["o1", "o2", "o3"]), ("shift", ["o2", "o2", "o2"]), ("shift", ["o1", "o3", "o2"])]
     return out
 
 
@@ -56,6 +57,9 @@ def plans(tier, seed):
         [("take", ["o1", "o2"]), ("reset", []), ("finish", [])],
         [("finish", []), ("reset", []), ("drop", ["o1", "o2"])],
         [("reset", [])],
+        [("shift", ["o1", "o2", "o2"])],  # stays in place: deletes and adds the same fact
+        [("take", ["o1", "o2"]), ("shift", ["o1", "o2", "o2"]), ("shift", ["o1", "o2", "o3"])],
+        [("shift", ["o1", "o2", "o3"]), ("shift", ["o1", "o3", "o3"]), ("drop", ["o1", "o3"])],
     ]
     out = list(curated)
     n = 90 if tier == "quick" else 800
@@ -104,7 +108,7 @@ def run_plan(task):
     stats = Stats()
     try:
         lib.install_math_shim()
-        text = seqsem.ma_domain_text(actions=seqsem.MA_ACTIONS + seqsem.NULLARY_ACTIONS)
+        text = seqsem.ma_domain_text(actions=seqsem.MA_ACTIONS + seqsem.NULLARY_ACTIONS + seqsem.MOVE_ACTIONS)
         comp = seqsem.Composer(text, G.OBJECTS)
         plan = [(n, list(a)) for n, a in task["plan"]]
         allow = task["allow"]
@@ -220,7 +224,7 @@ def run_plan(task):
 def replay_plan(task, atoms, fls):
     from fractions import Fraction
     from pddl_plus_parser.exporters import TrajectoryExporter
-    text = seqsem.ma_domain_text(actions=seqsem.MA_ACTIONS + seqsem.NULLARY_ACTIONS)
+    text = seqsem.ma_domain_text(actions=seqsem.MA_ACTIONS + seqsem.NULLARY_ACTIONS + seqsem.MOVE_ACTIONS)
     comp = seqsem.Composer(text, G.OBJECTS)
     plan = [(n, list(a)) for n, a in task["plan"]]
     allow = task["allow"]
